@@ -289,10 +289,84 @@ def generated_obligations(ctx):
     return c12_astguard.generated_obligations(ctx)
 
 
+def real_threads_smoke(ctx):
+    """no shim: real threading.Lock/Event, OS scheduling with a tiny switch interval.  Writers do a
+    read-modify-write of two keys that must stay equal; readers check that they never see them differ and
+    that their snapshot does not move.  Lost updates = broken mutual exclusion; a hang = deadlock."""
+    import sys
+    import threading
+    import dns.versioned as dv
+    import dns.btreezone
+    import pC11
+    assert dv.threading is threading
+    F = []
+    old = sys.getswitchinterval()
+    sys.setswitchinterval(1e-6)
+    try:
+        for Z in (dv.Zone, dns.btreezone.Zone):
+            z = Z("example.")
+            with z.writer() as t:
+                t.replace(pC11.key_name(2), pC11.key_rdataset(2, 0))
+                t.replace(pC11.key_name(3), pC11.key_rdataset(3, 0))
+            nw, per = 6, ctx.n(20, 60)
+            problems = []
+            stop = []
+
+            def writer():
+                for _ in range(per):
+                    with z.writer() as txn:
+                        c = dict(map(tuple, pC11.txn_content(txn)))
+                        if c.get(2) != c.get(3):
+                            problems.append(("writer saw a partial state", c))
+                        txn.replace(pC11.key_name(2), pC11.key_rdataset(2, c[2] + 1))
+                        txn.replace(pC11.key_name(3), pC11.key_rdataset(3, c[3] + 1))
+
+            def reader():
+                while not stop:
+                    with z.reader() as txn:
+                        a = dict(map(tuple, pC11.txn_content(txn)))
+                        b = dict(map(tuple, pC11.txn_content(txn)))
+                        if a.get(2) != a.get(3) or a != b:
+                            problems.append(("reader saw a partial or moving state", a, b))
+                        with z._version_lock:
+                            kept = any(txn.version is v for v in z._versions)
+                        if not kept:
+                            problems.append(("reader's version not retained", txn.version.id))
+
+            ts = [threading.Thread(target=writer, daemon=True) for _ in range(nw)]
+            rs = [threading.Thread(target=reader, daemon=True) for _ in range(2)]
+            for th in ts + rs:
+                th.start()
+            for th in ts:
+                th.join(60)
+            stop.append(1)
+            for th in rs:
+                th.join(10)
+            if any(th.is_alive() for th in ts + rs):
+                F.append({"kind": "C12:real-threads:deadlock", "sig": "real-deadlock",
+                          "what": "real threads did not finish (deadlock / lost wake-up) on " + Z.__module__})
+                continue
+            final = dict(map(tuple, pC11.version_content(z._versions[-1])))
+            if final.get(2) != nw * per or final.get(3) != nw * per:
+                F.append({"kind": "C12:real-threads:lost update", "sig": "real-lost-update",
+                          "what": f"{nw}x{per} read-modify-write transactions ended at {final} on {Z.__module__}: "
+                                  "write transactions overlapped"})
+            if problems:
+                F.append({"kind": "C12:real-threads:inconsistent view", "sig": "real-view",
+                          "what": str(problems[0])[:300] + " on " + Z.__module__})
+            if z._write_txn is not None or len(z._write_waiters) or len(z._readers):
+                F.append({"kind": "C12:real-threads:zone not idle", "sig": "real-idle",
+                          "what": "zone not idle after all threads ended on " + Z.__module__})
+            ctx.notes["real_thread_transactions"] = ctx.notes.get("real_thread_transactions", 0) + nw * per
+    finally:
+        sys.setswitchinterval(old)
+    return F
+
+
 def extra(ctx):
     import traceback
     try:
-        return c12_lines.check(ctx)
+        return c12_lines.check(ctx) + real_threads_smoke(ctx)
     except Exception:  # noqa
         return [{"kind": "C12:line-level exploration crashed", "sig": "lines crashed",
                  "what": "line-level exploration could not run: " + traceback.format_exc()[-600:],
